@@ -35,7 +35,7 @@ fn main() {
             "C05" => c05::replay(&ctx, &sub, &case),
             "C06" => c06::replay(&ctx, &sub, &case),
             "C19" => c19::replay(&ctx, &sub, &case),
-            "C11" | "C12" => c12s::replay(&ctx, &sub, &case),
+            "C10" | "C11" | "C12" => c12s::replay(&ctx, &sub, &case),
             "C17" => c17s::replay(&ctx, &sub, &case),
             _ => {
                 eprintln!("harness error: pzv-scheme cannot replay property {prop}");
@@ -74,6 +74,10 @@ fn main() {
         "C06" => {
             c06::run_all(&ctx);
             ctx.finish(c06::RULE, &["thresholds are rigorous concentration bounds (Bernstein / Hoeffding, alpha = 2^-54 per test): detection power is limited to variance errors above roughly 10-30 % and per-bit biases above roughly 3 %", "sub-check other_routines_noise_mask_seeds needs no secret: with identical masks the exact difference of two bodies is e1 - e2; blind-rotation and circuit-bootstrapping keys are read back through their public serialisation", "the seed-compressed blind-rotation / circuit-bootstrapping keys are not sampled (their cells are GGSWCompressed, sampled in the first sub-check)"], &[("variance_band_checked", 60), ("compressed", 40), ("glwe_encrypt_pk", 8), ("circuit_bootstrapping_key", 8), ("lwe", 8)])
+        }
+        "C10" => {
+            c12s::run_all_c10(&ctx);
+            ctx.finish(c12s::RULE_C10, &["scheme-level part of C10 (the HAL registry is served by pzv-hal); CKKS programs and binary-FHE pipelines are compared across backends only through their decrypted results (C15, C16 run on every backend)"], &[("four_backends_identical", 1000)])
         }
         "C11" => {
             c12s::run_all_c11(&ctx);
